@@ -258,3 +258,44 @@ Lemma chain_past_any_refuted : g_chain_ends_at_any = false ->
 Proof.
   intros H. vm_compute in H. first [discriminate H | (split; [vm_compute; reflexivity | exists abc_id; vm_compute; repeat split; reflexivity])].
 Qed.
+
+(* ---- the fix-state facts are REQUIRED (obligations, not hypotheses): reverting af716bd / 52035ba makes these fail ------------- *)
+Lemma fact_index_top_level_only : g_index_top_level_only = true. Proof. reflexivity. Qed.
+Lemma fact_chain_ends_at_any : g_chain_ends_at_any = true. Proof. reflexivity. Qed.
+
+Lemma p_flatb_true pol dirs pkg : p_flatb pol dirs pkg = true.
+Proof. unfold p_flatb. destruct (mk_loaders pol dirs pkg). rewrite fact_index_top_level_only. reflexivity. Qed.
+
+(* the composed statement for the property's spec (chain ending at Any), single lookup and EVERY sequence of lookups *)
+Lemma p_rendered_one pol dirs pkg c : In c p_ids -> p_shadow_freeb pol dirs pkg c = true ->
+  p_rendered_seq false pol dirs pkg [c] = [p_spec_rendered pol dirs pkg c].
+Proof. intros Hc Hs. apply (p_rendered_property pol dirs pkg c fact_chain_ends_at_any Hc (p_flatb_true pol dirs pkg) Hs). Qed.
+
+Lemma p_rendered_seq_all pol dirs pkg : forall cs,
+  (forall c, In c cs -> In c p_ids /\ p_shadow_freeb pol dirs pkg c = true) ->
+  p_rendered_seq false pol dirs pkg cs = map (p_spec_rendered pol dirs pkg) cs.
+Proof.
+  intros cs H. unfold p_rendered_seq. rewrite p_cache_transparent.
+  assert (E : forall c, In c cs -> p_outcome pol dirs pkg (hd None (p_spec_seq pol dirs pkg [c])) = p_spec_rendered pol dirs pkg c).
+  { intros c Hc. destruct (H c Hc) as [Hi Hs]. pose proof (p_rendered_one pol dirs pkg c Hi Hs) as R.
+    unfold p_rendered_seq in R. rewrite p_cache_transparent in R.
+    unfold p_spec_seq in *. destruct (mk_loaders pol dirs pkg). cbn [map hd] in *. inversion R. reflexivity. }
+  unfold p_spec_seq in *. destruct (mk_loaders pol dirs pkg) as [fs pk]. rewrite map_map. apply map_ext_in.
+  intros c Hc. specialize (E c Hc). cbn [map hd] in E. exact E.
+Qed.
+
+(* FIND_FIRST (the only policy DSDLCodeGenerator uses): as soon as a templates directory is given the package loader does not
+   exist -- built-in templates are unreachable, "user beats built-in of the same name" and the no-shadow premise are vacuous *)
+Lemma find_first_builtins_unreachable (rs : list (list path)) pkg :
+  (forall name, p_get_source FIND_FIRST (Some rs) pkg name <> Some OPkg) /\
+  (forall c, p_shadow_freeb FIND_FIRST (Some rs) pkg c = true) /\
+  (forall q cs, p_lookup_seq q FIND_FIRST (Some rs) pkg cs = p_lookup_seq q FIND_FIRST (Some rs) None cs).
+Proof.
+  assert (ML : forall pk : option (list path), mk_loaders FIND_FIRST (Some rs) pk = (Some rs, None)) by (intros [l|]; reflexivity).
+  split; [|split].
+  - intros name. unfold p_get_source. rewrite ML. unfold get_source, pkg_source. destruct (first_root rs name 0); discriminate.
+  - intros c. unfold p_shadow_freeb. rewrite ML. cbn [p_index_pkg option_map].
+    induction (chain_n p_bases p_fuel c) as [|k l IH]; cbn [shadow_freeb]; [reflexivity|].
+    destruct (match p_index_fs (Some rs) with Some T => T | None => fun _ => None end k); [reflexivity | exact IH].
+  - intros q cs. unfold p_lookup_seq. rewrite !ML. reflexivity.
+Qed.
